@@ -870,6 +870,24 @@ func (a *act) hintsAfter(in ssa.Instruction, b *ssa.BasicBlock, reach string, st
 			}()
 			continue
 		}
+		if h.Enter != nil {
+			func() {
+				defer func() {
+					if r := recover(); r != nil {
+						if se, ok := r.(specError); ok {
+							fx.degraded = append(fx.degraded, fmt.Sprintf("monitorenter clause does not resolve: %s", se.msg))
+							return
+						}
+						panic(r)
+					}
+				}()
+				pre := st.clone()
+				fx.havocItems(fx.modItems(h.Enter, env, pre), pre, st, reach)
+				fx.ctx.Assert(Imp(reach, fx.specTerm(h.C.X, env, st, fx.entry, env.pkg)))
+				fx.eng.assume("monitor rule: the invariant is assumed when the lock is (re)acquired in " + a.spec.Key + " and must be proved at every release (assert hints at Unlock / Wait)")
+			}()
+			continue
+		}
 		t := a.safeSpec(h.C, env, st)
 		name := h.C.Name
 		if name == "" {
